@@ -555,7 +555,7 @@ def rocell(rng, empty_p=0.3):
     if k < 0.55:
         return ("S", [rtext(rng, 0, 3) for _ in range(rng.choice([1, 1, 1, 2]))])
     if k < 0.8:
-        return ("N", rng.choice(["1", "0", "-3", "2.5", "1e3", "1E+20", "0.1", "007", "1_0", "abc", "nan", "1e400", "-inf", " 4 ", "",
+        return ("N", rng.choice(["1", "0", "-3", "2.5", "1e3", "1E+20", "5e3", "1E+020", "2.5e-1", "0.1", "007", "1_0", "abc", "nan", "1e400", "-inf", " 4 ", "",
                                  "12345678901234567890", "3.0", "-0.0"]))
     if k < 0.87:
         return ("D", rng.choice(["2024-01-02", "2024-01-02T03:04:05", ""]))
@@ -843,8 +843,10 @@ def xhtml(body: str) -> str:
 
 # ----------------------------------------------------------------------------- XLSX / XLS
 def coq_xcell(v):
-    iso = v.isoformat() if isinstance(v, (datetime.datetime, datetime.date, datetime.time)) else None
-    return f"{{| xc_val := {coq_val(v)}; xc_str := {coq_str(str(v))}; xc_iso := {coq_opt(iso, coq_str)} |}}"
+    # the JSON-safe string the extractor substitutes: ISO for dates/times, str() for durations
+    conv = (v.isoformat() if isinstance(v, (datetime.datetime, datetime.date, datetime.time))
+            else str(v) if isinstance(v, datetime.timedelta) else None)
+    return f"{{| xc_val := {coq_val(v)}; xc_str := {coq_str(str(v))}; xc_conv := {coq_opt(conv, coq_str)} |}}"
 
 
 XVALS = ["a", "b", "", " ", "Unnamed: 3", "x y", 1, 0, -7, 2.5, 1.0, 1e20, True, False,
@@ -867,6 +869,8 @@ def xlsx_expected(g):
     def conv(v):
         if isinstance(v, (datetime.datetime, datetime.date, datetime.time)):
             return v.isoformat()
+        if isinstance(v, datetime.timedelta):
+            return str(v)       # duration cells: their string form, e.g. '1:02:00'
         return v
     def empty(v):
         return v is None or (isinstance(v, str) and v.strip() == "")
@@ -1147,6 +1151,114 @@ def witnesses(ctx, batch):
         ctx.finding("rtf-adjacent-tables-merged",
                     "RTF: two tables separated by a short paragraph (< 100 source characters / <= 20 text characters) are returned as one table",
                     {"format": "rtf", "grids": gs, "separator": "\\pard\\par", "got": tabs, "want": gs})
+
+
+RAGGED = [
+    [["item", "qty", "price"], ["nut", "7", "1.20"], ["total"]],          # widest row is not the lexicographic maximum
+    [["z"], ["a", "b", "c", "d"]],
+    [["b", "b"], ["a", "a", "a"], ["c"]],
+    [["x", "y"], [], ["zz"]],
+    [[]],
+    [],
+    [["same", "same"], ["same", "same", ""]],
+]
+
+
+def fixed_cases(ctx, B, dim_cases):
+    """deterministic cases for get_dim on ragged data, all-empty tables and ODS exponent numbers"""
+    from sharepoint2text.parsing.extractors import data_types as DT
+    T3 = "list (list (list str))"
+    # get_dim of every list-backed table type, directly on ragged data (also non-string rows for the sheet types)
+    mixed = [[None, 3, "a"], [2.5], ["z", None, None, 1]]
+    for cls in (DT.TableData, DT.XlsxSheet, DT.OdsSheet, DT.OdtTable, DT.RtfTable):
+        for data in RAGGED + ([mixed] if cls in (DT.XlsxSheet, DT.OdsSheet, DT.TableData) else []):
+            want = (len(data), max((len(r) for r in data), default=0))
+            try:
+                obj = cls(data=[list(r) for r in data])
+                dm = obj.get_dim()
+                got = (dm.rows, dm.columns)
+                same = obj.get_table() == data
+            except Exception as e:  # noqa
+                got, same = type(e).__name__, True
+            ctx.case(("dim", cls.__name__, repr(data)), True, "dim:ragged")
+            if got != want or not same:
+                ctx.finding(f"{cls.__name__}-get_dim-not-shape",
+                            f"{cls.__name__}(data={data!r}): get_dim() gives {got}, the shape of get_table() is {want}",
+                            {"class": cls.__name__, "data": repr(data), "got": repr(got), "want": want})
+            elif all(isinstance(c, str) for r in data for c in r):
+                dim_cases.insert(0, (data, got))
+    # the ragged example through real files (HTML keeps ragged rows as they are)
+    rag = RAGGED[0]
+    src = "<html><body><table>" + "".join("<tr>" + "".join(f"<td>{c}</td>" for c in r) + "</tr>" for r in rag) + "</table></body></html>"
+    tree, tabs, dims = html_run(src)
+    B["htmltree"].add(f"({coq_nd(tree)}, {coq_tables(tabs)})", ("fixed", src))
+    ctx.case(("fixed", src), True, "fixed")
+    if tabs != [rag] or dims != [(3, 3)]:
+        ctx.finding("html-ragged-table-dim", f"HTML ragged table: got {tabs!r} dims {dims!r}, want {[rag]!r} dims [(3, 3)]",
+                    {"format": "html", "html": src, "got": tabs, "dims": dims})
+    # a blank 2x3 table between two filled tables must be returned, in place (all formats with list-of-str tables)
+    blank = [[[[]], [[]], [[]]], [[[]], [[]], [[]]]]            # fgrid: 2x3 cells, one empty paragraph each
+    filled1, filled2 = [[[["a"]], [["b"]]]], [[[["c"]]]]
+    gs = [filled1, blank, filled2]
+    want = [[["a", "b"]], [["", "", ""], ["", "", ""]], [["c"]]]
+    frames, tabs, dims = pptx_run(pptx_file([pptx_r_frame(g) for g in gs]))
+    ctx.case(("fixed", "pptx-blank"), True, "fixed")
+    if tabs != want or dims != [(1, 2), (2, 3), (1, 1)]:
+        ctx.finding("pptx-blank-table-lost", f"PPTX: an all-empty 2x3 table between two filled tables is not returned in place: got {tabs!r} dims {dims!r}",
+                    {"format": "pptx", "grids": gs, "got": tabs, "dims": dims, "want": want})
+    if len(tabs) == 3:
+        for g, f, r in zip(gs, frames, tabs):
+            B["pptx"].add(f"({coq_fgrid(g)}, {coq_nd(f)}, (Some {coq_sgrid(r)}))", ("fixed", "pptx-blank"))
+    d = [("t", [[[("p", p) for p in c] for c in r] for r in g]) for g in gs]
+    tree, tabs, dims = docx_run(docx_file(docx_r_body(d)))
+    B["docx"].add(f"({coq_doc(d)}, {coq_nd(tree)}, {coq_tables(tabs)})", ("fixed", "docx-blank"))
+    ctx.case(("fixed", "docx-blank"), True, "fixed")
+    if tabs != want:
+        ctx.finding("docx-blank-table-lost", f"DOCX: an all-empty 2x3 table between two filled tables is not returned in place: got {tabs!r}",
+                    {"format": "docx", "doc": d, "got": tabs, "want": want})
+    tree, tabs, dims = odt_run(odf_file(nd_xml(odt_r_body(d)), "text"))
+    B["odt"].add(f"({coq_doc(d)}, {coq_nd(tree)}, {coq_tables(tabs)})", ("fixed", "odt-blank"))
+    ctx.case(("fixed", "odt-blank"), True, "fixed")
+    if tabs != want:
+        ctx.finding("odt-blank-table-lost", f"ODT: an all-empty 2x3 table between two filled tables is not returned in place: got {tabs!r}",
+                    {"format": "odt", "doc": d, "got": tabs, "want": want})
+    tbls, tabs, dims = odp_run(odp_file([odf_r_ftable(g) for g in gs]))
+    ctx.case(("fixed", "odp-blank"), True, "fixed")
+    if tabs != want:
+        ctx.finding("odp-blank-table-lost", f"ODP: an all-empty 2x3 table between two filled tables is not returned in place: got {tabs!r}",
+                    {"format": "odp", "grids": gs, "got": tabs, "want": want})
+    hd = [("t", [[("x", "a", []), ("x", "b", [])]]), ("t", [[("x", "", [])] * 3] * 2), ("t", [[("x", "c", [])]])]
+    src = html_src(html_r_root("", hd))
+    tree, tabs, dims = html_run(src)
+    B["html"].add(f"({coq_str('')}, {coq_hdoc(hd)}, {coq_nd(tree)}, {coq_tables(tabs)})", ("fixed", src))
+    ctx.case(("fixed", src), True, "fixed")
+    if tabs != want:
+        ctx.finding("html-blank-table-lost", f"HTML: an all-empty 2x3 table between two filled tables is not returned in place: got {tabs!r}",
+                    {"format": "html", "html": src, "got": tabs, "want": want})
+    body = "".join("<table>" + "".join("<tr>" + "".join(f"<td>{c}</td>" for c in r) + "</tr>" for r in g) + "</table>" for g in want)
+    evs, tabs, dims = epub_run([xhtml(body)])
+    B["epub"].add(f"({coq_events(evs)}, {coq_tables(tabs)})", ("fixed", body))
+    ctx.case(("fixed", body), True, "fixed")
+    if tabs != want:
+        ctx.finding("epub-blank-table-lost", f"EPUB: an all-empty 2x3 table between two filled tables is not returned in place: got {tabs!r}",
+                    {"format": "epub", "xhtml_body": body, "got": tabs, "want": want})
+    # ODS: numbers in exponent form without a dot stay numeric
+    g = [[("N", "5e3"), ("N", "1E+020"), ("N", "7"), ("N", "2.50"), ("N", "2.5e-1"), ("N", "-4E2")]]
+    wantv = [[5000, 10 ** 20, 7, 2.5, 0.25, -400]]
+    for rle_mode in (False, True):
+        sheet = ods_r_sheet(g, rle_mode)
+        tbls, tabs, dims, err = ods_run(ods_file([sheet]))
+        it, ft = int_table(tbls[0], {"table:number-columns-repeated", "table:number-rows-repeated", "text:c"}), flt_table(tbls[0])
+        res = "None" if tabs is None else f"(Some {coq_vgrid(tabs[0])})"
+        B["odsrle" if rle_mode else "odsplain"].add(
+            f"({coq_int_table(it)}, {coq_flt_table(ft)}, {coq_list([coq_list([coq_ocell(c) for c in r]) for r in g])}, {coq_nd(tbls[0])}, {res})",
+            ("fixed", "ods-exponent"))
+        ctx.case(("fixed", "ods-exponent", rle_mode), True, "fixed")
+        got = None if tabs is None else [[val_canon(v) for v in r] for r in tabs[0]]
+        if got != [[val_canon(v) for v in r] for r in wantv]:
+            ctx.finding("ods-exponent-number-not-numeric",
+                        f"ODS: office:value in exponent form ('5e3', '1E+020', ...) must stay numeric: got {None if tabs is None else tabs[0]!r} want {wantv!r}",
+                        {"format": "ods", "values": [c[1] for c in g[0]], "got": repr(None if tabs is None else tabs[0]), "want": repr(wantv)})
 
 
 # ----------------------------------------------------------------------------- the check
@@ -1569,6 +1681,9 @@ def run(ctx):
 
     # ---------------- witnesses of the refuted statements, on the real code
     witnesses(ctx, lambda name, fn, ty: B[name] if name in B else batch(name, fn, ty))
+
+    # ---------------- fixed cases
+    fixed_cases(ctx, B, dim_cases)
 
     # ---------------- get_dim and whitespace glue
     b_dim = batch("dim", "corr_dim", "list (list str) * (nat * nat)")
